@@ -1844,7 +1844,7 @@ mod remote {
         let (n, pre, fin) = match library_truth(&path) {
             Ok(x) => x,
             Err(e) => {
-                return RemoteDone { c: c.clone(), input_coq: "inr (inr (inr ([], [], 0, [])))".into(), obs: O::T(vec![O::L(0), O::T(vec![])]), verdict: fail("library_run", e), tags, wall_ms: 0 };
+                return RemoteDone { c: c.clone(), input_coq: "inr (inr (inr (inl ([], [], 0, []))))".into(), obs: O::T(vec![O::L(0), O::T(vec![])]), verdict: fail("library_run", e), tags, wall_ms: 0 };
             }
         };
         let pre_rows: Vec<Row> = pre.iter().map(|x| x.1).collect();
@@ -1852,7 +1852,7 @@ mod remote {
         if pre_rows != fin_rows {
             tags.push("remote_final_refresh_carries_news".into());
         }
-        let input_coq = format!("inr (inr (inr ({}, {}, {}, {})))", rows_coq(&pre_rows), rows_coq(&fin_rows), n, cnums(&c.sched));
+        let input_coq = format!("inr (inr (inr (inl ({}, {}, {}, {}))))", rows_coq(&pre_rows), rows_coq(&fin_rows), n, cnums(&c.sched));
         let mut verdict = Verdict::Ok;
         let mut client_rows: Vec<Row> = vec![];
         let mut announced = 0u32;
@@ -1953,6 +1953,756 @@ mod remote {
     }
 }
 
+// ================================================================== incremental followers of the lifecycle table
+// A consumer that follows the lifecycle table INCREMENTALLY, exactly as remote.rs process_file_context does it (take the
+// entries whose lcs_w_refresh_idx is larger than the largest index seen so far; last := max seen), must end with the
+// same table as a consumer that reads the table once at the end -- for every pacing.  The protocol relies on every
+// refresh of the lifecycle stage carrying a fresh (strictly larger) index.
+//  * deterministic part: the real stage alone, the table is read INSIDE every outflow call (what a consumer behind a
+//    rendezvous channel can see at the earliest); on the recorded views the follower is run for EVERY choice of the sends
+//    after which it looks (reachable follower states, deduplicated), and finally on the table after the stage returned;
+//  * threaded part: stage [-> plugins stage] -> consumer on sync_channel(0|1|2|4) with the real helper, the consumer
+//    polling the real read handle after received messages as scripted, final poll after the threads have finished.
+mod incr {
+    use super::*;
+    use adlt::dlt::DltChar4;
+    use std::collections::{BTreeMap, BTreeSet};
+
+    /// (id, ecu, nr_msgs, start_time, end_time, lcs_w_refresh_idx)
+    pub type Ent = (u32, u32, u32, u64, u64, u32);
+
+    #[derive(Clone, Debug)]
+    pub struct Trace {
+        pub msgs: Vec<MsgSpec>,
+        /// message i gets index i * stride (the regular refresh of the stage is driven by the message index: every 100000)
+        pub stride: u32,
+        /// first letter (offset from 'A') of the name of ecu number e (cyclic); empty = names of dltgen.  The order in which
+        /// the stage visits the ecus in a buffer check is the iteration order of a hash map keyed by the name.
+        pub names: Vec<u8>,
+        pub family: String,
+    }
+    impl Trace {
+        pub fn json(&self) -> Value {
+            json!({"msgs": self.msgs, "stride": self.stride, "names": self.names, "family": self.family})
+        }
+        pub fn from_json(v: &Value) -> Trace {
+            Trace {
+                msgs: serde_json::from_value(v["msgs"].clone()).unwrap(),
+                stride: v["stride"].as_u64().unwrap_or(1) as u32,
+                names: serde_json::from_value(v["names"].clone()).unwrap_or_default(),
+                family: v["family"].as_str().unwrap_or("replay").to_string(),
+            }
+        }
+    }
+
+    #[derive(Clone, Debug)]
+    pub struct Run {
+        pub cap: usize,
+        pub mid: bool,            // a plugins stage (no plugin) between the lifecycle stage and the consumer
+        pub paced_producer: bool, // producer behind a channel of the same capacity, paced by `cons` rotated
+        pub polls: Vec<u8>,       // after the k-th received message (cyclic): 0 no look, 1 look, 2 yield + look, 3 200 us + look
+        pub cons: Vec<u8>,        // pacing before the k-th recv (cyclic)
+        pub sched: Vec<u64>,      // interleaving for the model
+    }
+    impl Run {
+        pub fn json(&self) -> Value {
+            json!({"cap": self.cap, "mid": self.mid, "paced_producer": self.paced_producer, "polls": self.polls, "cons": self.cons, "sched": self.sched})
+        }
+        pub fn from_json(v: &Value) -> Run {
+            Run {
+                cap: v["cap"].as_u64().unwrap() as usize,
+                mid: v["mid"].as_bool().unwrap_or(false),
+                paced_producer: v["paced_producer"].as_bool().unwrap_or(false),
+                polls: serde_json::from_value(v["polls"].clone()).unwrap(),
+                cons: serde_json::from_value(v["cons"].clone()).unwrap_or_default(),
+                sched: serde_json::from_value(v["sched"].clone()).unwrap_or_default(),
+            }
+        }
+    }
+
+    pub fn build(t: &Trace) -> Vec<DltMessage> {
+        t.msgs
+            .iter()
+            .enumerate()
+            .map(|(i, m)| {
+                let mut d = build_msg(i, m);
+                d.index = (i as u32).saturating_mul(t.stride.max(1));
+                if !t.names.is_empty() {
+                    let k = t.names[(m.0 as usize) % t.names.len()] % 26;
+                    d.ecu = DltChar4::from_buf(&[b'A' + k, b'C', b'0' + (m.0 / 10) % 10, b'0' + m.0 % 10]);
+                }
+                d
+            })
+            .collect()
+    }
+
+    /// the consumer side of the protocol (remote.rs process_file_context, `fc.last_lcs_w_refresh_index`)
+    #[derive(Clone, Debug, Default, PartialEq, Eq, PartialOrd, Ord)]
+    pub struct Follower {
+        pub last: u32,
+        pub tbl: BTreeMap<u32, Ent>,
+    }
+    impl Follower {
+        pub fn poll(&mut self, view: &[Ent]) {
+            let mut new_last = self.last;
+            for e in view {
+                if e.5 > self.last {
+                    new_last = new_last.max(e.5);
+                    self.tbl.insert(e.0, *e);
+                }
+            }
+            self.last = new_last;
+        }
+    }
+
+    // ---------------------------------------------------------------- generator
+    struct Tb {
+        now: u64,
+        boot: Vec<Option<u64>>,
+        jitter: u64,
+        v: Vec<MsgSpec>,
+    }
+    impl Tb {
+        fn msg(&mut self, rng: &mut Rng, e: usize, step: u64, reboot: bool) {
+            self.now += step;
+            if reboot || self.boot[e].is_none() {
+                self.boot[e] = Some(self.now);
+                self.now += 300_000 + rng.below(400_000);
+            }
+            let b = self.boot[e].unwrap();
+            let delay = if self.jitter > 0 { rng.below(self.jitter) } else { 0 };
+            self.v.push((e as u8 + 1, self.now + delay, ((self.now - b) / 100) as u32, if rng.chance(1, 25) { 1 } else { 0 }));
+        }
+        /// every ecu of `es` sends a block (or all of them interleaved)
+        fn burst(&mut self, rng: &mut Rng, es: &[usize], blocks: bool, reboot_p: u64) {
+            let lens: Vec<u64> = es.iter().map(|_| rng.range(1, 6)).collect();
+            if blocks {
+                for (j, e) in es.iter().enumerate() {
+                    let rb = self.boot[*e].is_some() && rng.chance(reboot_p, 4);
+                    for i in 0..lens[j] {
+                        let step = if i == 0 { rng.range(100_000, 3_000_000) } else { rng.range(20_000, 400_000) };
+                        self.msg(rng, *e, step, rb && i == 0);
+                    }
+                }
+            } else {
+                let mut left = lens.clone();
+                let rb: Vec<bool> = es.iter().map(|e| self.boot[*e].is_some() && rng.chance(reboot_p, 4)).collect();
+                let mut first = vec![true; es.len()];
+                while left.iter().any(|l| *l > 0) {
+                    let j = rng.below(es.len() as u64) as usize;
+                    if left[j] == 0 {
+                        continue;
+                    }
+                    left[j] -= 1;
+                    let a1 = rng.range(20_000, 400_000);
+                    self.msg(rng, es[j], a1, rb[j] && first[j]);
+                    first[j] = false;
+                }
+            }
+        }
+    }
+
+    fn subset(rng: &mut Rng, n: usize, lo: usize) -> Vec<usize> {
+        let mut all: Vec<usize> = (0..n).collect();
+        // seeded shuffle: the order in which the ecus appear
+        for i in (1..all.len()).rev() {
+            let j = rng.below(i as u64 + 1) as usize;
+            all.swap(i, j);
+        }
+        let k = rng.range(lo.min(n) as u64, n as u64) as usize;
+        all.truncate(k.max(1));
+        all
+    }
+
+    pub fn gen_trace(rng: &mut Rng, i: usize, max: u64) -> Trace {
+        let s = 1_000_000u64;
+        let fam = i % 6;
+        let necu = rng.range(2, 5) as usize;
+        let mut tb = Tb { now: RHO + 10 * s, boot: vec![None; necu + 1], jitter: if rng.chance(1, 3) { rng.range(1_000, 150_000) } else { 0 }, v: vec![] };
+        let family;
+        match fam {
+            // several ecus, a few messages each (in blocks / interleaved), all quiet for more than 60 s, then a message of a new
+            // ecu, of one of them (going on, or after a reboot): ONE buffer check confirms several lifecycles; some of the ecus
+            // never send again
+            0 | 1 => {
+                family = if fam == 0 { "gap_blocks" } else { "gap_interleaved" };
+                for _round in 0..rng.range(1, 2) {
+                    let es = subset(rng, necu, 2);
+                    tb.burst(rng, &es, fam == 0, 1);
+                    tb.now += rng.range(61, 200) * s;
+                    let trig = match rng.below(3) {
+                        0 => necu, // an ecu not seen so far
+                        _ => *rng.pick(&es),
+                    };
+                    let a2 = rng.chance(1, 2);
+                    tb.msg(rng, trig, 0, a2);
+                    let alive: Vec<usize> = es.iter().copied().filter(|e| *e == trig || rng.chance(1, 3)).collect();
+                    let alive = if alive.is_empty() { vec![trig] } else { alive };
+                    for _ in 0..rng.below(8) {
+                        let e = *rng.pick(&alive);
+                        let a1 = rng.range(1_100_000, 4_000_000);
+                        tb.msg(rng, e, a1, false);
+                    }
+                    tb.now += rng.range(1, 30) * s;
+                }
+            }
+            // one or two ecus that boot 2..3 times within less than a minute: several buffered lifecycles of ONE ecu
+            2 => {
+                family = "reboots";
+                let es = subset(rng, necu.min(2), 1);
+                for b in 0..rng.range(2, 3) {
+                    for e in &es {
+                        for i in 0..rng.range(1, 4) {
+                            let step = if i == 0 { rng.range(2, 12) * s } else { rng.range(20_000, 400_000) };
+                            tb.msg(rng, *e, step, i == 0 && b > 0);
+                        }
+                    }
+                }
+                if rng.chance(2, 3) {
+                    tb.now += rng.range(61, 200) * s;
+                    let trig = if rng.chance(1, 3) { necu } else { *rng.pick(&es) };
+                    let a2 = rng.chance(1, 2);
+                    tb.msg(rng, trig, 0, a2);
+                    for _ in 0..rng.below(6) {
+                        let a1 = rng.range(1_100_000, 4_000_000);
+                        tb.msg(rng, trig, a1, false);
+                    }
+                }
+            }
+            // the stream ends while several lifecycles are buffered (optionally after a confirmed phase of one ecu)
+            3 => {
+                family = "end_of_stream";
+                if rng.chance(1, 2) {
+                    let span = rng.range(65, 120) * s;
+                    let n = rng.range(4, 10);
+                    for _ in 0..n {
+                        tb.msg(rng, 0, span / n, false);
+                    }
+                }
+                let es = subset(rng, necu, 2);
+                let blocks = rng.chance(1, 2);
+                tb.burst(rng, &es, blocks, 2);
+                if rng.chance(1, 2) {
+                    let es2 = subset(rng, necu, 1);
+                    tb.burst(rng, &es2, true, 3);
+                }
+            }
+            // an ecu that runs all the time (messages forwarded directly, the regular refresh at work when the index stride is
+            // large), other ecus show up for a few messages and go away
+            4 => {
+                family = "regular_refresh";
+                let total = rng.range(80, 250) * s;
+                let t_end = tb.now + total;
+                tb.msg(rng, 0, 0, false);
+                while tb.now < t_end && (tb.v.len() as u64) < max + 20 {
+                    let a1 = rng.range(1_100_000, 6_000_000);
+                    tb.msg(rng, 0, a1, false);
+                    if rng.chance(1, 6) {
+                        let es: Vec<usize> = subset(rng, necu, 1).into_iter().filter(|e| *e != 0).collect();
+                        if !es.is_empty() {
+                            tb.burst(rng, &es, true, 2);
+                        }
+                    }
+                }
+            }
+            _ => {
+                family = "mixed";
+                tb.v = match rng.below(4) {
+                    0 => {
+                        let stable = rng.chance(1, 2);
+                        gen_double_reboot_end(rng, max, stable)
+                    }
+                    1 => gen_msgs(rng, max),
+                    2 => from_lcgen(lcgen::gen_merge_template(rng)),
+                    _ => {
+                        let f = rng.below(3);
+                        gen_lc_prefix(rng, f, max).0
+                    }
+                };
+            }
+        }
+        let stride = match fam {
+            4 => *rng.pick(&[33_334u32, 50_001, 100_001, 100_001]),
+            _ => *rng.pick(&[1u32, 1, 40_000, 100_001]),
+        };
+        // names: a seeded assignment of first letters (different buckets of the stage's ecu map), or the names of dltgen
+        let names: Vec<u8> = if rng.chance(1, 4) {
+            vec![]
+        } else {
+            let mut l: Vec<u8> = (0..8).collect();
+            for i in (1..l.len()).rev() {
+                let j = rng.below(i as u64 + 1) as usize;
+                l.swap(i, j);
+            }
+            l
+        };
+        let mut msgs = tb.v;
+        msgs.truncate(max as usize + 40);
+        Trace { msgs, stride, names, family: family.to_string() }
+    }
+
+    /// hand-picked traces: two ecus with one short lifecycle each confirmed by ONE buffer check triggered by a third ecu 200 s
+    /// later (both orders of appearance, three namings), several lifecycles of one ecu confirmed by one check, the witness of
+    /// the recorded finding (a published lifecycle merged away: DESIGN App. A C07-1), the empty stream, one message
+    pub fn corpus() -> Vec<Trace> {
+        let s = 1_000_000u64;
+        let demo = |a: u8, b: u8, names: Vec<u8>, stride: u32| -> Trace {
+            let mut msgs: Vec<MsgSpec> = (0..5u64).map(|i| (a, RHO + 10 * s + i * 100_000, (10_000 + i * 1000) as u32, 2u8)).collect();
+            msgs.extend((0..5u64).map(|i| (b, RHO + 10 * s + 500_000 + i * 100_000, (20_000 + i * 1000) as u32, 2u8)));
+            msgs.push((3, RHO + 210 * s, 10_000, 2));
+            Trace { msgs, stride, names, family: "corpus_two_ecus_one_check".into() }
+        };
+        let mut v = vec![
+            demo(1, 2, vec![], 1),
+            demo(2, 1, vec![], 1),
+            demo(1, 2, vec![0, 1, 2, 3], 1),
+            demo(2, 1, vec![0, 1, 2, 3], 1),
+            demo(1, 2, vec![3, 2, 1, 0], 100_001),
+            demo(2, 1, vec![3, 2, 1, 0], 40_000),
+        ];
+        // one ecu booting three times within 20 s, then quiet for 100 s, then going on
+        let mut msgs: Vec<MsgSpec> = vec![];
+        for b in 0..3u64 {
+            for i in 0..3u64 {
+                msgs.push((1, RHO + 10 * s + b * 7 * s + i * 200_000, (5_000 + i * 2000) as u32, 0));
+            }
+        }
+        for i in 0..4u64 {
+            msgs.push((1, RHO + 130 * s + i * 1_500_000, (1_000_000 + i * 15_000) as u32, 0));
+        }
+        v.push(Trace { msgs, stride: 1, names: vec![], family: "corpus_one_ecu_three_boots".into() });
+        v.push(Trace {
+            msgs: vec![(1, RHO, 200000, 0), (2, RHO + s / 5, 0, 0), (1, RHO + s / 2, 0, 0), (1, RHO - s, 0, 0), (3, RHO + 60 * s + s / 10, 0, 0), (1, RHO - 5 * s, 0, 0)],
+            stride: 1,
+            names: vec![],
+            family: "corpus_published_lifecycle_merged_away".into(),
+        });
+        v.push(Trace { msgs: vec![], stride: 1, names: vec![], family: "corpus_empty".into() });
+        v.push(Trace { msgs: vec![(1, RHO, 10, 0)], stride: 100_001, names: vec![], family: "corpus_one_message".into() });
+        v
+    }
+
+    pub fn gen_runs(rng: &mut Rng) -> Vec<Run> {
+        let script = |rng: &mut Rng, codes: &[u8]| -> Vec<u8> { (0..rng.range(1, 9)).map(|_| *rng.pick(codes)).collect() };
+        let mut v = vec![
+            // the fastest follower: rendezvous channel, looks at the table after every message
+            Run { cap: 0, mid: false, paced_producer: false, polls: vec![1], cons: vec![], sched: vec![] },
+            Run { cap: 0, mid: true, paced_producer: rng.chance(1, 2), polls: script(rng, &[1, 1, 2, 0]), cons: script(rng, &[0, 0, 1, 2]), sched: vec![] },
+            Run { cap: 1, mid: rng.chance(1, 3), paced_producer: rng.chance(1, 2), polls: script(rng, &[1, 2, 3, 0]), cons: script(rng, &[0, 1, 2, 3]), sched: vec![] },
+            Run { cap: 2, mid: rng.chance(1, 3), paced_producer: rng.chance(1, 2), polls: script(rng, &[1, 0, 0, 2]), cons: script(rng, &[0, 0, 0, 3]), sched: vec![] },
+            Run { cap: *rng.pick(&[4usize, 7, LARGE]), mid: false, paced_producer: false, polls: script(rng, &[1, 0, 3]), cons: script(rng, &[0, 2, 3, 4]), sched: vec![] },
+        ];
+        for r in v.iter_mut() {
+            r.sched = (0..60).map(|_| rng.below(300)).collect();
+        }
+        v
+    }
+
+    // ---------------------------------------------------------------- deterministic part
+    /// the real stage alone; the table as readers see it at every outflow call (message index, view), and at the end
+    pub fn run_views(t: &Trace) -> Result<(Vec<(u32, Vec<Ent>)>, Vec<Ent>), String> {
+        let msgs = build(t);
+        catch(move || {
+            let (lcs_r, lcs_w) = evmap::Options::default().with_hasher(Hasher::default()).construct::<LifecycleId, LifecycleItem>();
+            let (tx, rx) = std::sync::mpsc::channel();
+            for m in msgs {
+                tx.send(m).unwrap();
+            }
+            drop(tx);
+            let views = std::cell::RefCell::new(vec![]);
+            let w = parse_lifecycles_buffered_from_stream(lcs_w, rx, &|m: DltMessage| {
+                views.borrow_mut().push((m.index, read_table(&lcs_r)));
+                Ok(())
+            });
+            let fin = read_table(&lcs_r);
+            drop(w);
+            (views.into_inner(), fin)
+        })
+    }
+
+    /// what is wrong with a follower's table (after its look at the final table): (stale or missing ids, ids the table no longer has)
+    pub fn defects(f: &Follower, fin: &[Ent]) -> (Vec<u32>, Vec<u32>) {
+        let stale: Vec<u32> = fin.iter().filter(|e| f.tbl.get(&e.0) != Some(*e)).map(|e| e.0).collect();
+        let extra: Vec<u32> = f.tbl.keys().copied().filter(|id| !fin.iter().any(|e| e.0 == *id)).collect();
+        (stale, extra)
+    }
+
+    pub struct Explored {
+        pub states: usize,
+        pub truncated: bool,
+        /// a choice of sends after which the follower looks (positions), ending with a stale / missing entry
+        pub stale: Option<(Vec<usize>, Follower)>,
+        /// ... ending with an entry of a lifecycle that is no longer in the table
+        pub extra: Option<(Vec<usize>, Follower)>,
+    }
+
+    /// every follower state reachable by looking at the table after an arbitrary subset of the sends
+    pub fn explore(views: &[(u32, Vec<Ent>)], fin: &[Ent], limit: usize) -> Explored {
+        let mut states: BTreeMap<Follower, Vec<usize>> = BTreeMap::new();
+        states.insert(Follower::default(), vec![]);
+        let mut truncated = false;
+        for (j, (_, v)) in views.iter().enumerate() {
+            // the view only matters when it differs from the previous one
+            if j > 0 && views[j - 1].1 == *v {
+                continue;
+            }
+            let cur: Vec<(Follower, Vec<usize>)> = states.iter().map(|(f, p)| (f.clone(), p.clone())).collect();
+            for (mut f, mut p) in cur {
+                f.poll(v);
+                if !states.contains_key(&f) {
+                    if states.len() >= limit {
+                        truncated = true;
+                        break;
+                    }
+                    p.push(j);
+                    states.insert(f, p);
+                }
+            }
+        }
+        let mut stale = None;
+        let mut extra = None;
+        for (f, p) in &states {
+            let mut f = f.clone();
+            f.poll(fin);
+            let (st, ex) = defects(&f, fin);
+            if !st.is_empty() && stale.as_ref().map_or(true, |(q, _): &(Vec<usize>, Follower)| p.len() < q.len()) {
+                stale = Some((p.clone(), f.clone()));
+            }
+            if !ex.is_empty() && extra.as_ref().map_or(true, |(q, _): &(Vec<usize>, Follower)| p.len() < q.len()) {
+                extra = Some((p.clone(), f));
+            }
+        }
+        Explored { states: states.len(), truncated, stale, extra }
+    }
+
+    pub fn follow(views: &[(u32, Vec<Ent>)], fin: &[Ent], pat: &[bool]) -> Follower {
+        let mut f = Follower::default();
+        for (j, (_, v)) in views.iter().enumerate() {
+            if pat.get(j).copied().unwrap_or(false) {
+                f.poll(v);
+            }
+        }
+        f.poll(fin);
+        f
+    }
+
+    // ---------------------------------------------------------------- threaded part
+    pub struct Out {
+        pub delivered: Vec<u32>,
+        pub follower: Follower,
+        pub fin: Vec<Ent>,
+        pub hung: bool,
+        pub panicked: bool,
+        pub looks: usize,
+    }
+
+    pub fn run_threaded(t: &Trace, r: &Run, hang: Duration) -> Out {
+        let msgs = build(t);
+        let (lcs_r, lcs_w) = evmap::Options::default().with_hasher(Hasher::default()).construct::<LifecycleId, LifecycleItem>();
+        let (done_tx, done_rx) = sync_channel::<usize>(8);
+        let (tx0, rx0) = sync_channel::<DltMessage>(if r.paced_producer { r.cap } else { LARGE.max(msgs.len() + 1) });
+        let prod_script: Vec<u8> = if r.paced_producer { r.cons.iter().rev().copied().collect() } else { vec![] };
+        let g = DoneGuard(done_tx.clone(), 0);
+        let producer = std::thread::spawn(move || {
+            let _g = g;
+            for (i, m) in msgs.into_iter().enumerate() {
+                if !prod_script.is_empty() {
+                    pace(prod_script[i % prod_script.len()]);
+                }
+                if sync_sender_send_delay_if_full(m, &tx0).is_err() {
+                    break;
+                }
+            }
+        });
+        let (tx1, rx1) = sync_channel::<DltMessage>(r.cap);
+        let g = DoneGuard(done_tx.clone(), 1);
+        let lc = std::thread::spawn(move || {
+            let _g = g;
+            parse_lifecycles_buffered_from_stream(lcs_w, rx0, &|m| sync_sender_send_delay_if_full(m, &tx1))
+        });
+        let mut nthreads = 2;
+        let mut mid = None;
+        let rx_last = if r.mid {
+            let (tx2, rx2) = sync_channel::<DltMessage>(r.cap);
+            let g = DoneGuard(done_tx.clone(), 2);
+            nthreads = 3;
+            mid = Some(std::thread::spawn(move || {
+                let _g = g;
+                plugins_process_msgs(rx1, &|m| sync_sender_send_delay_if_full(m, &tx2), vec![]).is_ok()
+            }));
+            rx2
+        } else {
+            rx1
+        };
+        drop(done_tx);
+        let mut f = Follower::default();
+        let mut delivered = vec![];
+        let mut looks = 0usize;
+        let mut k = 0usize;
+        loop {
+            if !r.cons.is_empty() {
+                pace(r.cons[k % r.cons.len()]);
+            }
+            match rx_last.recv() {
+                Ok(m) => {
+                    delivered.push(m.index);
+                    let code = if r.polls.is_empty() { 0 } else { r.polls[k % r.polls.len()] };
+                    if code > 0 {
+                        match code {
+                            1 => {}
+                            2 => std::thread::yield_now(),
+                            _ => std::thread::sleep(Duration::from_micros(200)),
+                        }
+                        f.poll(&read_table(&lcs_r));
+                        looks += 1;
+                    }
+                    k += 1;
+                }
+                Err(_) => break,
+            }
+        }
+        drop(rx_last);
+        let deadline = Instant::now() + hang;
+        let mut finished = 0;
+        while finished < nthreads {
+            match done_rx.recv_timeout(deadline.saturating_duration_since(Instant::now())) {
+                Ok(_) => finished += 1,
+                Err(_) => break,
+            }
+        }
+        if finished < nthreads {
+            return Out { delivered, follower: f, fin: vec![], hung: true, panicked: false, looks };
+        }
+        let _ = producer.join();
+        let mid_ok = mid.map_or(true, |h| h.join().unwrap_or(false));
+        match lc.join() {
+            Ok(w) => {
+                // the look after everything has finished (a consumer that never stops ticking)
+                let fin = read_table(&lcs_r);
+                f.poll(&fin);
+                drop(w);
+                Out { delivered, follower: f, fin, hung: false, panicked: !mid_ok, looks }
+            }
+            Err(_) => Out { delivered, follower: f, fin: vec![], hung: false, panicked: true, looks },
+        }
+    }
+
+    // ---------------------------------------------------------------- one case
+    pub struct Done {
+        pub t: Trace,
+        pub pats: Vec<Vec<bool>>,
+        pub runs: Vec<Run>,
+        pub input_coq: String,
+        pub obs: O,
+        pub verdict: Verdict,
+        pub classes: Vec<String>,
+        pub tags: Vec<String>,
+        pub states: usize,
+    }
+
+    fn ent_o(rank: u64, e: &Ent) -> O {
+        O::T(vec![O::n(rank), O::n(e.5), O::n(e.1), O::n(e.2), O::n(e.3), O::n(e.4)])
+    }
+
+    pub fn case(t: &Trace, pats_replay: Option<Vec<Vec<bool>>>, runs: Vec<Run>, rng: &mut Rng, hang: Duration) -> Done {
+        let fail = |c: &str, d: String| Verdict::Fail { clause: c.into(), detail: d };
+        let mut verdict = Verdict::Ok;
+        let mut classes = vec![];
+        let mut tags = vec!["incr_follower".to_string(), format!("incr_family_{}", t.family), format!("incr_stride_{}", if t.stride == 1 { "1" } else if t.stride < 100_000 { "sub_100k" } else { "over_100k" })];
+        tags.push(if t.names.is_empty() { "incr_names_dltgen".into() } else { "incr_names_permuted".into() });
+        let (views, fin) = match run_views(t) {
+            Ok(x) => x,
+            Err(e) => {
+                tags.push("stage_panicked".into());
+                verdict = fail("incr_stage_runs", e);
+                (vec![], vec![])
+            }
+        };
+        // ranks of the lifecycle ids (process-wide counter): all ids ever visible at a send or at the end
+        let mut ids: BTreeSet<u32> = fin.iter().map(|e| e.0).collect();
+        for (_, v) in &views {
+            ids.extend(v.iter().map(|e| e.0));
+        }
+        let ids: Vec<u32> = ids.into_iter().collect();
+        let rank = |id: u32| ids.binary_search(&id).unwrap() as u64 + 1;
+        // ---- the publication sequence as events: what changed between two consecutive looks, grouped by refresh index
+        let mut evs: Vec<String> = vec![];
+        let mut prev: BTreeMap<u32, Ent> = BTreeMap::new();
+        let mut n_refresh = 0usize;
+        let mut n_between_sends_max = 0usize;
+        let mut first_pub: Vec<(u32, u32, usize)> = vec![]; // (id, idx, number of sends before)
+        let mut delta = |v: &[Ent], prev: &mut BTreeMap<u32, Ent>, evs: &mut Vec<String>, sends: usize| -> usize {
+            let mut groups: BTreeMap<u32, Vec<Ent>> = BTreeMap::new();
+            for e in v {
+                if prev.get(&e.0) != Some(e) {
+                    groups.entry(e.5).or_default().push(*e);
+                }
+            }
+            let gone: Vec<u32> = prev.keys().copied().filter(|id| !v.iter().any(|e| e.0 == *id)).collect();
+            for id in &gone {
+                evs.push(format!("(1, {}, [])", rank(*id)));
+                prev.remove(id);
+            }
+            let n = groups.len();
+            for (idx, es) in groups {
+                let ups: Vec<String> = es.iter().map(|e| format!("({}, {})", rank(e.0), cnums(&[e.1 as u64, e.2 as u64, e.3, e.4]))).collect();
+                evs.push(format!("(0, {}, {})", idx, clist(&ups)));
+                for e in es {
+                    if !prev.contains_key(&e.0) {
+                        first_pub.push((e.0, idx, sends));
+                    }
+                    prev.insert(e.0, e);
+                }
+            }
+            n
+        };
+        for (j, (_, v)) in views.iter().enumerate() {
+            let n = delta(v, &mut prev, &mut evs, j);
+            n_refresh += n;
+            n_between_sends_max = n_between_sends_max.max(n);
+            evs.push(format!("(2, {}, [])", j));
+        }
+        n_refresh += delta(&fin, &mut prev, &mut evs, views.len());
+        drop(delta);
+        // coverage tags
+        if n_between_sends_max >= 2 {
+            tags.push("incr_two_or_more_refreshes_between_two_sends".into());
+        }
+        // two lifecycles first published under consecutive indices with sends in between (as two confirmations of one buffer
+        // check with a drain in between are), the second one never published again
+        let mut crit = false;
+        let mut crit_final = false;
+        for w in first_pub.windows(2) {
+            if w[1].1 == w[0].1 + 1 && w[1].2 > w[0].2 {
+                crit = true;
+                if fin.iter().any(|e| e.0 == w[1].0 && e.5 == w[1].1) {
+                    crit_final = true;
+                }
+            }
+        }
+        if crit {
+            tags.push("incr_consecutive_first_publications_with_sends_between".into());
+        }
+        if crit_final {
+            tags.push("incr_second_of_them_never_published_again".into());
+        }
+        if first_pub.windows(2).any(|w| w[1].1 == w[0].1 && w[1].2 == w[0].2) {
+            tags.push("incr_several_lifecycles_in_one_refresh".into());
+        }
+        tags.push(format!("incr_refreshes_{}", match n_refresh { 0 => "0", 1..=2 => "1-2", 3..=9 => "3-9", _ => "10+" }));
+        tags.push(format!("incr_final_table_{}", match fin.len() { 0 => "0", 1 => "1", 2..=3 => "2-3", _ => "4+" }));
+        // ---- every choice of looks
+        let ex = explore(&views, &fin, 20_000);
+        if ex.truncated {
+            tags.push("incr_exploration_truncated".into());
+        }
+        let describe = |f: &Follower| -> String {
+            let (st, exx) = defects(f, &fin);
+            format!(
+                "the follower holds {:?}; the final table is {:?}; stale or missing: ids of rank {:?}, no longer in the table: {:?}",
+                f.tbl.values().map(|e| (rank_or0(&ids, e.0), e.2, e.5)).collect::<Vec<_>>(),
+                fin.iter().map(|e| (rank(e.0), e.2, e.5)).collect::<Vec<_>>(),
+                st.iter().map(|i| rank(*i)).collect::<Vec<_>>(),
+                exx.iter().map(|i| rank_or0(&ids, *i)).collect::<Vec<_>>()
+            )
+        };
+        if matches!(verdict, Verdict::Ok) {
+            if let Some((p, f)) = &ex.stale {
+                verdict = fail(
+                    "incremental_follower_ends_with_final_table",
+                    format!("a consumer that looks at the table (only) after sends number {:?} of {} and once more at the end: {} (entries as (id rank, nr_msgs, refresh idx))", p, views.len(), describe(f)),
+                );
+            } else if let Some((p, f)) = &ex.extra {
+                // a published lifecycle was merged away: the protocol cannot tell a follower (recorded finding)
+                classes.push("follower_keeps_removed_lifecycle".to_string());
+                verdict = fail(
+                    "incremental_follower_holds_only_final_lifecycles",
+                    format!("a consumer that looks at the table after sends number {:?} of {}: {}", p, views.len(), describe(f)),
+                );
+            }
+        }
+        if ex.extra.is_some() {
+            tags.push("incr_published_lifecycle_removed_later".into());
+        }
+        // ---- scripted followers for the model: every send, every 2nd, every 3rd, seeded, and the failing choice if any
+        let n = views.len();
+        let pats: Vec<Vec<bool>> = match pats_replay {
+            Some(p) => p,
+            None => {
+                let mut p: Vec<Vec<bool>> = vec![
+                    vec![true; n],
+                    (0..n).map(|j| j % 2 == 0).collect(),
+                    (0..n).map(|j| j % 3 == 2).collect(),
+                    (0..n).map(|_| rng.chance(1, 2)).collect(),
+                    (0..n).map(|_| rng.chance(1, 6)).collect(),
+                ];
+                for w in [&ex.stale, &ex.extra].into_iter().flatten() {
+                    p.push((0..n).map(|j| w.0.contains(&j)).collect());
+                }
+                p
+            }
+        };
+        let restricted = |f: &Follower, fin_ids: &[u32], det_ranks: &[u64]| -> O {
+            O::T(fin_ids.iter().zip(det_ranks.iter()).filter_map(|(id, rk)| f.tbl.get(id).map(|e| ent_o(*rk, e))).collect())
+        };
+        let fin_ids: Vec<u32> = fin.iter().map(|e| e.0).collect();
+        let fin_ranks: Vec<u64> = fin_ids.iter().map(|i| rank(*i)).collect();
+        let det_obs: Vec<O> = pats.iter().map(|p| restricted(&follow(&views, &fin, p), &fin_ids, &fin_ranks)).collect();
+        // ---- threaded
+        let want: Vec<u32> = views.iter().map(|v| v.0).collect();
+        let canon_fin = |f: &[Ent]| -> Vec<(u32, u32, u64, u64, u32)> { f.iter().map(|e| (e.1, e.2, e.3, e.4, e.5)).collect() };
+        let mut thr_obs = vec![];
+        let mut looks_total = 0usize;
+        for r in &runs {
+            let o = run_threaded(t, r, hang);
+            looks_total += o.looks;
+            let o_ids: Vec<u32> = o.fin.iter().map(|e| e.0).collect();
+            thr_obs.push(restricted(&o.follower, &o_ids, &fin_ranks));
+            if !matches!(verdict, Verdict::Ok) {
+                continue;
+            }
+            let what = format!("capacity {}{}{}, looks {:?}, consumer pacing {:?}", r.cap, if r.mid { ", plugins stage in between" } else { "" }, if r.paced_producer { ", paced producer" } else { "" }, r.polls, r.cons);
+            if o.hung {
+                verdict = fail("terminates", format!("{}: threads still running after the timeout", what));
+            } else if o.panicked {
+                verdict = fail("no_stage_dies", format!("{}: a stage panicked", what));
+            } else if o.delivered != want {
+                verdict = fail("same_sequence", format!("{}: delivered {:?}, the stage alone forwards {:?}", what, o.delivered, want));
+            } else if canon_fin(&o.fin) != canon_fin(&fin) {
+                verdict = fail("same_final_table_and_results", format!("{}: final table {:?}, the stage alone ends with {:?}", what, o.fin, fin));
+            } else {
+                let (st, exx) = defects(&o.follower, &o.fin);
+                if !st.is_empty() {
+                    verdict = fail(
+                        "incremental_follower_ends_with_final_table",
+                        format!("{}: after {} looks and a last one after all threads had finished the consumer holds {:?}, the final table is {:?} (id, ecu, nr_msgs, start, end, refresh idx)", what, o.looks, o.follower.tbl.values().collect::<Vec<_>>(), o.fin),
+                    );
+                } else if !exx.is_empty() {
+                    classes.push("follower_keeps_removed_lifecycle".to_string());
+                    verdict = fail("incremental_follower_holds_only_final_lifecycles", format!("{}: the consumer holds {:?}, the final table is {:?}", what, o.follower.tbl.values().collect::<Vec<_>>(), o.fin));
+                }
+            }
+        }
+        let _ = looks_total;
+        let pats_coq = clist(&pats.iter().map(|p| cnums(&p.iter().map(|b| *b as u8).collect::<Vec<_>>())).collect::<Vec<_>>());
+        let runs_coq = clist(&runs.iter().map(|r| format!("({}, {})", r.cap, cnums(&r.sched))).collect::<Vec<_>>());
+        let input_coq = format!("inr (inr (inr (inr ({}, {}, {}))))", clist(&evs), pats_coq, runs_coq);
+        Done { t: t.clone(), pats, runs, input_coq, obs: O::T(vec![O::T(det_obs), O::T(thr_obs)]), verdict, classes, tags, states: ex.states }
+    }
+
+    fn rank_or0(ids: &[u32], id: u32) -> u64 {
+        ids.binary_search(&id).map(|i| i as u64 + 1).unwrap_or(0)
+    }
+
+    pub fn push(sink: &mut Sink, d: Done) {
+        let input_json = json!({"incr": true, "trace": d.t.json(), "pats": d.pats, "runs": d.runs.iter().map(|r| r.json()).collect::<Vec<_>>()});
+        let key = input_json.to_string();
+        let nontrivial = d.t.msgs.len() >= 3;
+        let id = sink.next_id();
+        sink.push(Case { id, input_coq: d.input_coq, input_json, obs: d.obs, verdict: d.verdict, classes: d.classes, tags: d.tags, nontrivial, key });
+    }
+}
+
 fn corpus() -> Vec<Pipeline> {
     let s = 1_000_000u64;
     let full = vec![StageSpec::Lc, StageSpec::Plugins(3, vec![]), StageSpec::Sort(3, 100_000, false), StageSpec::Filter(vec![r#"{"type":1,"apid":"AP1"}"#.to_string()])];
@@ -2007,6 +2757,15 @@ fn main() {
                 Some(srv) => remote::push(&mut sink, remote::run_remote(srv.port, &c, dir.path(), 0)),
                 None => panic!("VERIF_ADLT_BIN not available"),
             }
+            sink.finish();
+            return;
+        }
+        if v["case"]["incr"].as_bool() == Some(true) {
+            let t = incr::Trace::from_json(&v["case"]["trace"]);
+            let pats: Vec<Vec<bool>> = serde_json::from_value(v["case"]["pats"].clone()).unwrap();
+            let runs: Vec<incr::Run> = v["case"]["runs"].as_array().unwrap().iter().map(incr::Run::from_json).collect();
+            let mut rng = Rng::new(a.seed);
+            incr::push(&mut sink, incr::case(&t, Some(pats), runs, &mut rng, hang));
             sink.finish();
             return;
         }
@@ -2212,6 +2971,53 @@ fn main() {
     for (_, d) in sr {
         push_shared(&mut sink, d);
     }
+    // incremental followers of the lifecycle table (refresh index protocol of remote.rs) at library level
+    let n_incr = match a.tier.as_str() {
+        "quick" => 36usize,
+        "search" => 60,
+        _ => 360,
+    };
+    let mut ijobs = vec![];
+    let icorpus = incr::corpus();
+    let n_icorpus = icorpus.len();
+    for (i, t) in icorpus.into_iter().enumerate() {
+        let runs = incr::gen_runs(&mut rng);
+        ijobs.push((i, t, runs, rng.next()));
+    }
+    for i in n_icorpus..n_icorpus + n_incr {
+        let t = incr::gen_trace(&mut rng, i, max_msgs);
+        let runs = incr::gen_runs(&mut rng);
+        ijobs.push((i, t, runs, rng.next()));
+    }
+    let iq = Arc::new(Mutex::new(ijobs));
+    let ires: Arc<Mutex<Vec<(usize, incr::Done)>>> = Arc::new(Mutex::new(vec![]));
+    let mut ws = vec![];
+    for _ in 0..workers.min(8) {
+        let (iq, ires) = (iq.clone(), ires.clone());
+        ws.push(std::thread::spawn(move || loop {
+            let job = iq.lock().unwrap().pop();
+            match job {
+                Some((i, t, runs, seed)) => {
+                    let mut rng = Rng::new(seed);
+                    let d = incr::case(&t, None, runs, &mut rng, hang);
+                    ires.lock().unwrap().push((i, d));
+                }
+                None => break,
+            }
+        }));
+    }
+    for w in ws {
+        let _ = w.join();
+    }
+    let mut ir = std::mem::take(&mut *ires.lock().unwrap());
+    ir.sort_by_key(|(i, _)| *i);
+    let n_incr_done = ir.len();
+    let incr_states_max = ir.iter().map(|x| x.1.states).max().unwrap_or(0);
+    for (_, d) in ir {
+        incr::push(&mut sink, d);
+    }
+    sink.extra_stats.insert("incremental_follower_cases".into(), json!(n_incr_done));
+    sink.extra_stats.insert("incremental_follower_states_explored_max".into(), json!(incr_states_max));
     // remote wiring: one server per delay setting, its sessions one after the other; the settings in parallel
     let (n_settings, per_setting) = match a.tier.as_str() {
         "quick" => (8usize, 5usize),
